@@ -109,13 +109,20 @@ def lastFull (q : PQuery) : Int :=
 def afterFull (q : PQuery) (cs : List Cand) : List Cand :=
   if lastFull q ≥ 0 then cs.filter (fun c => c.idx > lastFull q) else cs
 
-/-- the first RIGHT-joined candidate becomes the only candidate -/
-def restrictRight (cs : List Cand) : List Cand :=
-  match cs.find? (fun c => c.side == some .right) with
+/-- index of the last RIGHT join among ALL joins of the query (`last_right_join`, default -1) -/
+def lastRight (q : PQuery) : Int :=
+  (joinCands 0 q.joins).foldl (fun acc c => if c.side == some .right then c.idx else acc) (-1)
+
+/-- `lastOnly = true` (the code since /repo b9fa271): the source of the LAST right join — if it is still a
+    candidate — becomes the only candidate (earlier right-joined sources are NULL-padded by the later ones).
+    `lastOnly = false` is the unrepaired variant (the first RIGHT-joined candidate in `references` order); it is
+    kept so that a regression is tracked by the model and shows up as a failed table fact, not as model drift. -/
+def restrictRight (lastOnly : Bool) (q : PQuery) (cs : List Cand) : List Cand :=
+  match cs.find? (fun c => c.side == some .right && (!lastOnly || c.idx == lastRight q)) with
   | some c => [c]
   | none => cs
 
-def whereCands (q : PQuery) : List Cand := restrictRight (afterFull q (candidates q))
+def whereCands (lastOnly : Bool) (q : PQuery) : List Cand := restrictRight lastOnly q (afterFull q (candidates q))
 
 inductive Node where
   | join (name : String) (idx : Int)
@@ -173,8 +180,8 @@ def walkNodes (q : PQuery) (tables : List String) : List Node → List Target
   | .select name :: rest => .select name :: walkNodes q tables rest
 
 /-- where one WHERE conjunct referencing `tables` (sorted, as `sorted(column_table_names(p))`) goes -/
-def whereDecision (atoms : List PushAtom) (q : PQuery) (tables : List String) : List Target :=
-  match nodesForWhere atoms (whereCands q) (tables.length == 1) tables with
+def whereDecision (atoms : List PushAtom) (lastOnly : Bool) (q : PQuery) (tables : List String) : List Target :=
+  match nodesForWhere atoms (whereCands lastOnly q) (tables.length == 1) tables with
   | none => []
   | some nodes => walkNodes q tables nodes
 
@@ -249,33 +256,57 @@ structure ElimShape where
   used : Bool                     -- a column of it is referenced outside the ON clause
   side : Side
   hasOn : Bool
-  uniqueOutputs : List String     -- `_unique_outputs`
+  uniqueOutputs : List String     -- `_unique_outputs` as decided by its DISTINCT / GROUP BY branches
+  distinctOrGroup : Bool := false -- one of those branches was taken (their answer is final)
+  namedSelects : List String := [] -- the answer of the last branch when `_has_single_output_row` holds
   joinKeys : List String          -- names of the joined source's columns equated in the ON clause
   allAgg : Bool
   limit1 : Bool
   noFrom : Bool
+  group : Bool := false           -- the joined SELECT has GROUP BY
+  having : Bool := false
+  where_ : Bool := false
   deriving DecidableEq, Repr, Inhabited
 
 inductive ElimAtom where
   | isScope | notUsed | sideLeft | joinedOnAllUnique | noOn | singleRow
   deriving DecidableEq, Repr
 
-def hasSingleOutputRow (s : ElimShape) : Bool := s.allAgg || s.limit1 || s.noFrom
+/-- the extra conditions `_has_single_output_row` imposes since /repo 030ac60 ("exactly one row") -/
+inductive SingleRowAtom where
+  | noHaving            -- `if expression.args.get("having") …: return False`
+  | noFromlessWhere     -- `… or expression.args.get("where") and not expression.args.get("from_")`
+  | noGroup             -- `not expression.args.get("group") and all(<aggregates>)`
+  deriving DecidableEq, Repr
 
-def joinedOnAllUnique (s : ElimShape) : Bool :=
-  !s.uniqueOutputs.isEmpty && s.uniqueOutputs.all (fun c => s.joinKeys.contains c)
+def allSingleRowAtoms : List SingleRowAtom := [.noHaving, .noFromlessWhere, .noGroup]
 
-def ElimAtom.holds (s : ElimShape) : ElimAtom → Bool
+/-- `_has_single_output_row`; with `guards = []` this is the unrepaired variant `allAgg ∨ limit1 ∨ noFrom` -/
+def hasSingleOutputRow (guards : List SingleRowAtom) (s : ElimShape) : Bool :=
+  s.limit1 ||
+  (!(guards.contains .noHaving && s.having) &&
+   !(guards.contains .noFromlessWhere && s.where_ && s.noFrom) &&
+   (s.noFrom || (!(guards.contains .noGroup && s.group) && s.allAgg)))
+
+/-- `_unique_outputs` (its last branch consults `_has_single_output_row`) -/
+def effectiveUnique (guards : List SingleRowAtom) (s : ElimShape) : List String :=
+  if s.distinctOrGroup then s.uniqueOutputs
+  else if hasSingleOutputRow guards s then s.namedSelects else []
+
+def joinedOnAllUnique (guards : List SingleRowAtom) (s : ElimShape) : Bool :=
+  !(effectiveUnique guards s).isEmpty && (effectiveUnique guards s).all (fun c => s.joinKeys.contains c)
+
+def ElimAtom.holds (guards : List SingleRowAtom) (s : ElimShape) : ElimAtom → Bool
   | .isScope => s.isScope
   | .notUsed => !s.used
   | .sideLeft => s.side == .left
-  | .joinedOnAllUnique => SqlglotModel.Opt.joinedOnAllUnique s
+  | .joinedOnAllUnique => SqlglotModel.Opt.joinedOnAllUnique guards s
   | .noOn => !s.hasOn
-  | .singleRow => hasSingleOutputRow s
+  | .singleRow => hasSingleOutputRow guards s
 
 /-- `top ∧ (branchA ∨ branchB)` with the three atom lists extracted from the source -/
-def shouldEliminateJoin (top a b : List ElimAtom) (s : ElimShape) : Bool :=
-  top.all (·.holds s) && (a.all (·.holds s) || b.all (·.holds s))
+def shouldEliminateJoin (guards : List SingleRowAtom) (top a b : List ElimAtom) (s : ElimShape) : Bool :=
+  top.all (·.holds guards s) && (a.all (·.holds guards s) || b.all (·.holds guards s))
 
 -- ------------------------------------------------------------------------------------------ optimize_joins
 /-- `not any(join.side for join in joins)` -/
